@@ -19,7 +19,7 @@ PROP = "C01"
 PROPS_MODULE = "BiotiteModel.Props.C01"
 DRIVER_MODULE = "BiotiteModel.Driver.C01"
 EXT_MODULES = ["biotite.structure.bonds"]
-GEN_FILES = ["BiotiteModel/Gen/C01.lean"]
+GEN_FILES = ["BiotiteModel/Gen/C01.lean", "BiotiteModel/Gen/C01Skel.lean"]
 RULE = ("[+ 60 oracle-only API probes per quick run: len/shape/iteration/attribute access/`+`/equal_annotations(equal_nan)/"
         "Atom ==,copy/str/coord()/fresh constructors against the list-of-atoms reference] seeded operation histories (1-25 ops) over up to 4 registers holding atom arrays / stacks / atoms of 0-9 "
         "atoms, depth 0-4, with/without box, bonds and extra annotations (int/float/str/bool); indices drawn from the "
@@ -1847,11 +1847,17 @@ def gen_lean():
     for f in ("concatenate", "stack", "repeat", "from_template", "array"):
         if f not in funcs:
             raise ValueError(f"function {f} not found in atoms.py")
-    mand = []
+    mand, mand_dt = [], []
     for n in ast.walk(method("_AtomArrayBase", "__init__")):
         if isinstance(n, ast.Call) and isinstance(n.func, ast.Attribute) and n.func.attr == "add_annotation" and n.args:
             if isinstance(n.args[0], ast.Constant):
                 mand.append(n.args[0].value)
+                dt = next((k.value for k in n.keywords if k.arg == "dtype"), n.args[1] if len(n.args) > 1 else None)
+                if dt is None:
+                    raise ValueError("add_annotation call in __init__ without dtype")
+                mand_dt.append((n.args[0].value, dt.value if isinstance(dt, ast.Constant) else ast.unparse(dt)))
+    if len(mand) != len(mand_dt) or not mand:
+        raise ValueError("could not extract the mandatory annotation categories and their dtypes")
 
     def sl(xs):
         return "[" + ", ".join('"' + x + '"' for x in xs) + "]"
@@ -1872,5 +1878,197 @@ def gen_lean():
         f"def subarrayFields : List String := {sl(sub_new)}",
         "/-- mandatory annotation categories created by `__init__` -/",
         f"def mandatory : List String := {sl(mand)}",
+        "/-- (category, dtype given to `add_annotation` in `__init__`) -/",
+        "def mandatoryDtypes : List (String × String) := [" + ", ".join(f'("{a}", "{b}")' for a, b in mand_dt) + "]",
         "end BiotiteModel.Gen.C01", ""]
-    return {"BiotiteModel/Gen/C01.lean": "\n".join(body)}
+    return {"BiotiteModel/Gen/C01.lean": "\n".join(body), "BiotiteModel/Gen/C01Skel.lean": _skel_lean("Gen")}
+
+
+# ------------------------------------------------------------------ translator, part 2: normalised skeletons
+SKEL_PY = [  # (file, class or None, function) of the anchored Python code the hand-written model was written against
+    ("structure/atoms.py", "_AtomArrayBase", f) for f in (
+        "__init__", "array_length", "add_annotation", "del_annotation", "get_annotation", "set_annotation",
+        "get_annotation_categories", "_subarray", "_set_element", "_del_element", "equal_annotations",
+        "equal_annotation_categories", "__getattr__", "__setattr__", "__eq__", "__len__", "__add__", "__copy_fill__",
+        "_copy_annotations")] + [
+    ("structure/atoms.py", "Atom", f) for f in ("__init__", "__eq__", "__ne__", "__copy_create__")] + [
+    ("structure/atoms.py", "AtomArray", f) for f in (
+        "__init__", "get_atom", "__iter__", "__getitem__", "__setitem__", "__delitem__", "__len__", "__eq__", "__copy_create__")] + [
+    ("structure/atoms.py", "AtomArrayStack", f) for f in (
+        "__init__", "get_array", "stack_depth", "__iter__", "__getitem__", "__setitem__", "__delitem__", "__len__", "__eq__",
+        "__copy_create__")] + [
+    ("structure/atoms.py", None, f) for f in ("array", "stack", "concatenate", "repeat", "from_template", "coord")] + [
+    ("copyable.py", "Copyable", f) for f in ("copy", "__copy_create__", "__copy_fill__")]
+SKEL_PYX = ["__getitem__", "concatenate", "__copy_create__", "__copy_fill__", "__eq__", "_invert_index",
+            "_to_positive_index_array", "_to_index_array"]     # structure/bonds.pyx: index relabelling only
+
+
+def _py_skeleton(fn):
+    """Normalised control-flow skeleton of a function: one line per statement, indentation as depth, docstrings and
+    message strings dropped, local names alpha-renamed by first occurrence (a rename, a comment, another message stay
+    quiet; an operator, constant, attribute, helper, exception class, default value or the order of steps does not)."""
+    import ast
+    local = {}
+    args = fn.args
+    for a in args.posonlyargs + args.args + args.kwonlyargs + ([args.vararg] if args.vararg else []) + ([args.kwarg] if args.kwarg else []):
+        if a.arg != "self":
+            local[a.arg] = f"v{len(local) + 1}"
+    for n in ast.walk(fn):
+        if isinstance(n, ast.Name) and isinstance(n.ctx, (ast.Store, ast.Del)) and n.id not in local and n.id != "self":
+            local[n.id] = None
+    order = []
+    for n in ast.walk(fn):          # first occurrence order (walk is breadth-first: use line/col)
+        if isinstance(n, ast.Name) and n.id in local and local[n.id] is None:
+            order.append((n.lineno, n.col_offset, n.id))
+    for _, _, name in sorted(order):
+        if local[name] is None:
+            local[name] = f"v{sum(1 for v in local.values() if v) + 1}"
+
+    class Norm(ast.NodeTransformer):
+        def visit_Name(self, node):
+            return ast.copy_location(ast.Name(id=local.get(node.id, node.id), ctx=node.ctx), node)
+
+        def visit_arg(self, node):
+            node.arg = local.get(node.arg, node.arg)
+            return node
+
+        def visit_JoinedStr(self, node):
+            return ast.copy_location(ast.Constant(value="…"), node)
+
+        def visit_Constant(self, node):
+            if isinstance(node.value, str) and (len(node.value) > 12 or " " in node.value):
+                return ast.copy_location(ast.Constant(value="…"), node)
+            return node
+
+    def u(node):
+        return ast.unparse(Norm().visit(ast.fix_missing_locations(__import__("copy").deepcopy(node))))
+
+    out = ["def(" + ", ".join(
+        (local.get(a.arg, a.arg)) + ("=" + u(d) if d is not None else "")
+        for a, d in zip(args.args, [None] * (len(args.args) - len(args.defaults)) + list(args.defaults)))
+        + (", *" + local[args.vararg.arg] if args.vararg else "") + (", **" + local[args.kwarg.arg] if args.kwarg else "") + ")"]
+
+    def block(stmts, depth):
+        ind = "  " * depth
+        for st in stmts:
+            if isinstance(st, ast.Expr) and isinstance(st.value, ast.Constant) and isinstance(st.value.value, str):
+                continue                                    # docstring
+            if isinstance(st, ast.If):
+                out.append(f"{ind}if {u(st.test)}")
+                block(st.body, depth + 1)
+                if st.orelse:
+                    out.append(f"{ind}else")
+                    block(st.orelse, depth + 1)
+            elif isinstance(st, (ast.For, ast.While)):
+                out.append(f"{ind}for {u(st.target)} in {u(st.iter)}" if isinstance(st, ast.For) else f"{ind}while {u(st.test)}")
+                block(st.body, depth + 1)
+            elif isinstance(st, ast.Try):
+                out.append(f"{ind}try")
+                block(st.body, depth + 1)
+                for h in st.handlers:
+                    out.append(f"{ind}except {u(h.type) if h.type else ''}")
+                    block(h.body, depth + 1)
+            elif isinstance(st, ast.Raise):
+                exc = st.exc.func if isinstance(st.exc, ast.Call) else st.exc
+                out.append(f"{ind}raise {u(exc) if exc is not None else ''}")
+            elif isinstance(st, ast.FunctionDef):
+                out.append(f"{ind}def {st.name}")
+            else:
+                out.append(ind + u(st).replace("\n", " "))
+    block(fn.body, 1)
+    return out
+
+
+def _pyx_skeleton(src, name):
+    """Code lines of one function of a .pyx (comments, docstrings, blank lines removed), up to the next `def`/`cdef`
+    at the same or a lower indentation."""
+    m = re.search(r"^([ \t]*)(?:def|cdef[^\n(]*?|cpdef[^\n(]*?)\s*\b" + re.escape(name) + r"\s*\(", src, re.M)
+    if not m:
+        raise ValueError(f"bonds.pyx: function {name} not found")
+    ind = len(m.group(1).expandtabs(4))
+    lines = src[m.start():].split("\n")
+    out, in_doc = [], False
+    for k, ln in enumerate(lines):
+        stripped = ln.strip()
+        if k > 0 and stripped and not in_doc:
+            cur = len(ln.expandtabs(4)) - len(ln.expandtabs(4).lstrip())
+            if cur <= ind and not stripped.startswith((")", "]", "#")):
+                break
+        if in_doc:
+            if '"""' in stripped:
+                in_doc = False
+            continue
+        if stripped.startswith('"""'):
+            if stripped.count('"""') == 1:
+                in_doc = True
+            continue
+        code = re.sub(r"\s+#.*$", "", ln.rstrip()) if not stripped.startswith("#") else ""
+        if code.strip():
+            depth = (len(code.expandtabs(4)) - len(code.expandtabs(4).lstrip()) - ind) // 4
+            out.append("  " * max(depth, 0) + re.sub(r"f?\"[^\"]*\"", '"…"', code.strip()))
+    return out
+
+
+def _skeletons():
+    import ast
+    from common import paths
+    res = []
+    trees = {}
+    for file, cls, fn in SKEL_PY:
+        if file not in trees:
+            trees[file] = ast.parse(open(os.path.join(paths.SRC, "biotite", file)).read())
+        body = trees[file].body
+        if cls is not None:
+            c = next((n for n in body if isinstance(n, ast.ClassDef) and n.name == cls), None)
+            if c is None:
+                raise ValueError(f"{file}: class {cls} not found")
+            body = c.body
+        f = next((n for n in body if isinstance(n, ast.FunctionDef) and n.name == fn), None)
+        if f is None:
+            raise ValueError(f"{file}: {cls + '.' if cls else ''}{fn} not found")
+        res.append(((cls + "." if cls else "") + fn, _py_skeleton(f)))
+    pyx = open(os.path.join(paths.SRC, "biotite/structure/bonds.pyx")).read()
+    for fn in SKEL_PYX:
+        res.append(("bonds.pyx:" + fn, _pyx_skeleton(pyx, fn)))
+    # decorators of the BondList class that switch off bounds checking (basis of the `ub` outcome)
+    m = re.search(r"((?:^@cython\.[a-z]+\([A-Za-z]+\)\n)*)^class BondList", pyx, re.M)
+    if not m:
+        raise ValueError("bonds.pyx: class BondList not found")
+    res.append(("bonds.pyx:BondList-decorators", [x for x in m.group(1).split("\n") if x]))
+    return res
+
+
+def _lean_str(x):
+    return '"' + x.replace("\\", "\\\\").replace('"', '\\"') + '"'
+
+
+def _skel_ident(name):
+    return "skel_" + re.sub(r"[^A-Za-z0-9]", "_", name)
+
+
+def _skel_lean(ns):
+    """Lean source with one `def skel_<function> : List String` per anchored function (namespace Gen or Expected)."""
+    sk = _skeletons()
+    lines = [("/- REGENERATED on every run by harness/props/c01.py (normalised skeletons of atoms.py, copyable.py, "
+              "bonds.pyx). Do not edit. -/") if ns == "Gen" else
+             ("/- What the hand-written model of C01 was written against: produced ONCE by `python -c \"import sys; "
+              "sys.path[:0]=['/verif/harness','/repo/src']; from props import c01; c01.write_expected()\"` and then owned by "
+              "hand (re-run only after reviewing an intended change of the source, e.g. a fix: commit). -/"),
+             f"namespace BiotiteModel.{ns}.C01Skel"]
+    for name, body in sk:
+        lines.append(f"def {_skel_ident(name)} : List String := [" + ",\n  ".join(_lean_str(x) for x in body) + "]")
+    lines.append("def names : List String := [" + ", ".join(_lean_str(n) for n, _ in sk) + "]")
+    lines.append("/-- exception classes raised, in source order -/")
+    lines.append("def raises : List (String × List String) := [" + ",\n  ".join(
+        "(" + _lean_str(n) + ", [" + ", ".join(_lean_str(x.strip()[6:].split("(")[0]) for x in b if x.strip().startswith("raise ")) + "])"
+        for n, b in sk if any(x.strip().startswith("raise ") for x in b)) + "]")
+    lines += [f"end BiotiteModel.{ns}.C01Skel", ""]
+    return "\n".join(lines)
+
+
+def write_expected():
+    from common import paths
+    path = os.path.join(paths.LEAN, "BiotiteModel/Proofs/C01Expected.lean")
+    with open(path, "w") as f:
+        f.write(_skel_lean("Expected"))
+    print("wrote", path)
